@@ -342,13 +342,16 @@ theorem finish_sound (r : RState) (opt : Option EOpt) (tsig : Option Tsig) (pad 
       · simp at h
       · rename_i r6 h6
         simp at h; subst h
-        have hb5 : TblBelow r5.writeHeader := writeHeader_below r5 k1.1 k2
-        have hs5 := writeHeader_sound r5 k1
-        have hok : (tsigRRset t).namesOk r5.writeHeader.origin := by
-          have : r5.writeHeader.origin = r.origin := k3
+        have hb5 : TblBelow ({ r5.writeHeader with tbl := [] } : RState) := by
+          intro p hp; simp at hp
+        have hs5w := writeHeader_sound r5 k1
+        have hs5 : SoundSt ({ r5.writeHeader with tbl := [] } : RState) :=
+          ⟨hs5w.1, fun H _ p hp => by simp at hp⟩
+        have hok : (tsigRRset t).namesOk ({ r5.writeHeader with tbl := [] } : RState).origin := by
+          have : ({ r5.writeHeader with tbl := [] } : RState).origin = r.origin := k3
           rw [this]; exact tsigRRset_namesOk _ _ (ht t rfl)
-        have s6 := addRRset_sound r5.writeHeader _ _ r6 hok hb5 hs5 h6
-        have b6 := addRRset_ok_bound r5.writeHeader _ _ r6 hb5 hs5.1 h6
+        have s6 := addRRset_sound ({ r5.writeHeader with tbl := [] } : RState) _ _ r6 hok hb5 hs5 h6
+        have b6 := addRRset_ok_bound ({ r5.writeHeader with tbl := [] } : RState) _ _ r6 hb5 hs5.1 h6
         exact ⟨writeHeader_sound r6 s6, writeHeader_below r6 s6.1 b6.2.1⟩
 
 /-- every compression-table entry of a finished rendering is sound in the final message -/
@@ -374,7 +377,8 @@ theorem render_sound (m : Message) (lim : Nat) (pt : Bool) (r : RState) (hok : m
         simp only at hs
         obtain ⟨hi2, _, _⟩ := base_inv m _ _ _ r2 hbase
         have ho2 : r2.origin = m.origin := by
-          unfold Message.base at hbase
+          have hbase := base_ok hbase
+          unfold Message.base0 at hbase
           split at hbase
           · simp at hbase
           · rename_i r1 h1
@@ -382,7 +386,8 @@ theorem render_sound (m : Message) (lim : Nat) (pt : Bool) (r : RState) (hok : m
             obtain ⟨rfl, _⟩ := reserve_ok hbase
             rfl
         have hs2 : SoundSt r2 := by
-          unfold Message.base at hbase
+          have hbase := base_ok hbase
+          unfold Message.base0 at hbase
           split at hbase
           · simp at hbase
           · rename_i r1 h1
